@@ -1182,7 +1182,9 @@ static void struct_initializer1(Token **rest, Token *tok, Initializer *init) {
 
 // struct-initializer2 = initializer ("," initializer)*
 static void struct_initializer2(Token **rest, Token *tok, Initializer *init, Member *mem) {
-  bool first = true;
+  // When this continues after a designated member (see designation()),
+  // `tok` points at the comma that follows that member's initializer.
+  bool first = (mem == init->ty->members);
 
   for (; mem && !is_end(tok); mem = mem->next) {
     Token *start = tok;
